@@ -1,5 +1,5 @@
 CONSTANTS
-  MaxCmds = 4
+  MaxCmds = 3
   MaxPending = 3
   MaxNum = 1
   MaxItems = 1
@@ -10,7 +10,7 @@ CONSTANTS
   Greetings = {"PREAUTH"}
   SimDepth = 0
   Count = FALSE
-  MaxDepth = 7
+  MaxDepth = 6
 INIT GenInit
 NEXT GenNext
 VIEW DepthView
